@@ -3,6 +3,7 @@ import SuitVerif.CborProofs
 import SuitVerif.RoundTrip
 import SuitVerif.ReadsBack
 import SuitVerif.ReadsKv
+import SuitVerif.Props.C05
 import SuitVerif.Generated.Schema
 import SuitVerif.Generated.Guards
 /-! # C03 — parse then create reproduces the envelope (partial)
@@ -254,6 +255,76 @@ theorem C03_digest_current :
   simp only [Bool.and_eq_true, beq_iff_eq, decide_eq_true_eq] at this
   exact C03_digest_reads Generated.guards Generated.schema c cu ct ca cb post k1 k2 es h1 h2 h3 h4 h5 hk1 hk2 e this.1 this.2 b hb
 
+/-! ### the authentication wrapper of an unsigned envelope: `bstr [ bstr [alg, digest] ]` -/
+
+theorem C03_auth_wrapper_reads (g : Guards) (s : Schema) (cAw cAuth c cu ct ca cb cstar : Cls) (post : List Cls)
+    (kd kstar k1 k2 : String) (es : List (String × Int))
+    (h0 : s.ty cAw = some (.cbstr cAuth)) (hA : s.ty cAuth = some (.tupleNamed ([(kd, c)] ++ [(kstar, cstar)])))
+    (hkd : kd.endsWith "*" = false) (hks : kstar.endsWith "*" = true)
+    (h1 : s.ty c = some (.cbstr cu)) (h2 : s.ty cu = some (.union (ct :: post)))
+    (h3 : s.ty ct = some (.tupleNamed [(k1, ca), (k2, cb)])) (h4 : s.ty ca = some (.enum es)) (h5 : s.ty cb = some .hex)
+    (hk1 : k1.endsWith "*" = false) (hk2 : k2.endsWith "*" = false)
+    (e : String × Int) (hf : es.find? (fun x => x.2 == e.2) = some e) (hr : -(2 ^ 64 : Int) ≤ e.2 ∧ e.2 < 2 ^ 64)
+    (b : Bytes) (hb : b.length < 2 ^ 64) (hlen : (enc (.arr [Cbor.ofInt e.2, .bstr b])).length < 2 ^ 64) :
+    Reads g s cAw (enc (.arr [.bstr (enc (.arr [Cbor.ofInt e.2, .bstr b]))]))
+      (.wrapped (.tuple [kd, kstar]
+        [.wrapped (.alt 0 (s.name ct) (.tuple [k1, k2] [.enumv e.1 e.2, .leaf (.bstr b) .hex]))])) := by
+  let dn : Node := .wrapped (.alt 0 (s.name ct) (.tuple [k1, k2] [.enumv e.1 e.2, .leaf (.bstr b) .hex]))
+  have hdb : (Node.alt 0 (s.name ct) (.tuple [k1, k2] [.enumv e.1 e.2, .leaf (.bstr b) .hex])).toBytes
+      = enc (.arr [Cbor.ofInt e.2, .bstr b]) := by
+    simp [Node.toBytes, valList, Node.toVal]
+  have hval : valList [dn] = [.bstr (enc (.arr [Cbor.ofInt e.2, .bstr b]))] := by
+    simp only [valList, dn, Node.toVal, hdb]
+  have hd := C03_digest_reads g s c cu ct ca cb post k1 k2 es h1 h2 h3 h4 h5 hk1 hk2 e hf hr b hb
+  have hfields : Fields g s [(kd, c)] [dn] := by
+    refine .cons hkd ?_ .nil
+    have : ensure (Node.toVal dn) = enc (.arr [Cbor.ofInt e.2, .bstr b]) := by
+      simp only [dn, ensure_wrapped, hdb]
+    rw [this]; exact hd
+  have hw : (Cbor.arr [.bstr (enc (.arr [Cbor.ofInt e.2, .bstr b]))]).wf = true := by
+    simp only [Cbor.wf, wfList, Bool.and_true, Bool.and_eq_true, decide_eq_true_eq]
+    exact ⟨by simp, hlen⟩
+  have hn : norm (.arr [.bstr (enc (.arr [Cbor.ofInt e.2, .bstr b]))]) = some (.arr [.bstr (enc (.arr [Cbor.ofInt e.2, .bstr b]))]) := by
+    simp [norm, normList]
+  have ht := reads_tuple_star (g := g) (s := s) (c := cAuth) [(kd, c)] [dn] kstar cstar hA hks
+    (by rw [hval]; exact hw) (by rw [hval]; exact hn) hfields
+  rw [hval] at ht
+  simpa [dn] using reads_wrapped h0 ht
+
+/-- the chain of `C03_auth_wrapper_reads` in the extracted schema -/
+theorem C03_auth_chain :
+    ∃ (t : Nat) (nm : String) (cKv : Cls) (esEnv : List Entry) (emb : Option String) (cAw cAuth c cu ct ca cb cstar : Cls)
+      (post : List Cls) (kstar k1 k2 : String) (es : List (String × Int)),
+      Generated.schema.ty Generated.schema.envelope = some (.tag t nm cKv) ∧
+      Generated.schema.ty cKv = some (.keyValue esEnv emb) ∧
+      (esEnv.find? (fun e => e.name == "suit-authentication-wrapper")).map (·.cls) = some cAw ∧
+      Generated.schema.ty cAw = some (.cbstr cAuth) ∧
+      Generated.schema.ty cAuth = some (.tupleNamed ([("SuitDigest", c)] ++ [(kstar, cstar)])) ∧
+      Generated.schema.ty c = some (.cbstr cu) ∧ Generated.schema.ty cu = some (.union (ct :: post)) ∧
+      Generated.schema.ty ct = some (.tupleNamed [(k1, ca), (k2, cb)]) ∧ Generated.schema.ty ca = some (.enum es) ∧
+      Generated.schema.ty cb = some .hex ∧ kstar.endsWith "*" = true ∧ k1.endsWith "*" = false ∧ k2.endsWith "*" = false ∧
+      es.all (fun e => (es.find? (fun x => x.2 == e.2) == some e) && decide (-(2 ^ 64 : Int) ≤ e.2 ∧ e.2 < 2 ^ 64)) = true ∧
+      0 < es.length := by
+  refine ⟨_, _, _, _, _, _, _, _, _, _, _, _, _, _, _, _, _, _, rfl, rfl, rfl, rfl, rfl, rfl, rfl, rfl, rfl, rfl, ?_, ?_, ?_, ?_, ?_⟩ <;>
+    decide +kernel
+
+/-- **On the current tree:** the authentication wrapper of every unsigned envelope - each algorithm of the table, any digest
+value - is read back by the class of envelope member 2 as exactly the node `create` built (digest wrapped twice, no
+signature block) -/
+theorem C03_auth_wrapper_current :
+    ∃ (cAw ct : Cls) (kstar k1 k2 : String) (es : List (String × Int)), 0 < es.length ∧
+      ∀ e ∈ es, ∀ (b : Bytes), b.length < 2 ^ 64 → (enc (.arr [Cbor.ofInt e.2, .bstr b])).length < 2 ^ 64 →
+        Reads Generated.guards Generated.schema cAw (enc (.arr [.bstr (enc (.arr [Cbor.ofInt e.2, .bstr b]))]))
+          (.wrapped (.tuple ["SuitDigest", kstar]
+            [.wrapped (.alt 0 (Generated.schema.name ct) (.tuple [k1, k2] [.enumv e.1 e.2, .leaf (.bstr b) .hex]))])) := by
+  obtain ⟨_, _, _, _, _, cAw, cAuth, c, cu, ct, ca, cb, cstar, post, kstar, k1, k2, es, _, _, _, h0, hA, h1, h2, h3, h4, h5, hks, hk1,
+    hk2, hall, hlen⟩ := C03_auth_chain
+  refine ⟨cAw, ct, kstar, k1, k2, es, hlen, fun e he b hb hl => ?_⟩
+  have := List.all_eq_true.mp hall e he
+  simp only [Bool.and_eq_true, beq_iff_eq, decide_eq_true_eq] at this
+  exact C03_auth_wrapper_reads Generated.guards Generated.schema cAw cAuth c cu ct ca cb cstar post "SuitDigest" kstar k1 k2 es
+    h0 hA (by decide +kernel) hks h1 h2 h3 h4 h5 hk1 hk2 e this.1 this.2 b hb hl
+
 /-! ### a key/value map: the head of every manifest (version and sequence number), for all values -/
 
 theorem C03_manifest_head_reads (g : Guards) (s : Schema) (c : Cls) (es : List Entry) (emb : Option String) (e1 e2 : Entry)
@@ -315,5 +386,203 @@ theorem C03_manifest_head_current :
   refine ⟨cM, e1, e2, hname1, hname2, fun v q hv hq => ?_⟩
   exact reads_wrapped hM (C03_manifest_head_reads Generated.guards Generated.schema cMk esM embM e1 e2 hMk hf1 hf2
     (by rw [hi1, hi2]; decide) ht1 ht2 (by rw [hi1]; decide) (by rw [hi2]; decide) v q hv hq)
+
+/-! ### assembled: the smallest envelope there is, for all its values
+
+`tag 107 { 2: bstr [ bstr [alg, digest] ], 3: bstr { 1: version, 2: sequence number } }` -/
+
+theorem C03_minimal_envelope_reads (g : Guards) (s : Schema) (cEnv cKv : Cls) (t : Nat) (nm : String) (esEnv : List Entry)
+    (emb : Option String) (eA eM : Entry) (aw mf : Node)
+    (hE : s.ty cEnv = some (.tag t nm cKv)) (hKv : s.ty cKv = some (.keyValue esEnv emb))
+    (hfA : esEnv.find? (fun e => e.id == eA.id) = some eA) (hfM : esEnv.find? (fun e => e.id == eM.id) = some eM)
+    (hne : eA.id ≠ eM.id) (hmA : eA.merge = false) (hmM : eM.merge = false)
+    (hrA : -(2 ^ 64 : Int) ≤ eA.id ∧ eA.id < 2 ^ 64) (hrM : -(2 ^ 64 : Int) ≤ eM.id ∧ eM.id < 2 ^ 64)
+    (ht : t < 2 ^ 64)
+    (hwA : aw.toVal.wf = true) (hwM : mf.toVal.wf = true)
+    (hnA : norm aw.toVal = some aw.toVal) (hnM : norm mf.toVal = some mf.toVal)
+    (hA : Reads g s eA.cls (ensure aw.toVal) aw) (hM : Reads g s eM.cls (ensure mf.toVal) mf) :
+    Reads g s cEnv (enc (.tag t (.map [(Cbor.ofInt eA.id, aw.toVal), (Cbor.ofInt eM.id, mf.toVal)])))
+      (.tagged t nm (.kv [(entryKey eA, aw), (entryKey eM, mf)])) ∧
+    (Node.tagged t nm (.kv [(entryKey eA, aw), (entryKey eM, mf)])).toBytes
+      = enc (.tag t (.map [(Cbor.ofInt eA.id, aw.toVal), (Cbor.ofInt eM.id, mf.toVal)])) := by
+  have hnd : ([(eA, aw), (eM, mf)].map (·.1.id)).Nodup := by simp [hne]
+  have hwmap : (Cbor.map (kvsOf [(eA, aw), (eM, mf)])).wf = true := by
+    simp only [kvsOf, List.map_cons, List.map_nil, Cbor.wf, wfPairs, ofInt_wf _ hrA, ofInt_wf _ hrM, hwA, hwM, Bool.and_true,
+      Bool.true_and, decide_eq_true_eq]
+    simp
+  have hnorm : ∀ p ∈ [(eA, aw), (eM, mf)], norm p.2.toVal = some p.2.toVal := by
+    intro p hp
+    simp only [List.mem_cons, List.not_mem_nil, or_false] at hp
+    rcases hp with rfl | rfl
+    · exact hnA
+    · exact hnM
+  have hkv := reads_kv (g := g) (s := s) (c := cKv) esEnv emb [(eA, aw), (eM, mf)] hKv hwmap hnd hnorm (by
+    intro p hp
+    simp only [List.mem_cons, List.not_mem_nil, or_false] at hp
+    rcases hp with rfl | rfl
+    · exact ⟨hfA, hA⟩
+    · exact ⟨hfM, hM⟩)
+  have hbytes := kv_toBytes [(eA, aw), (eM, mf)] (by
+    intro p hp
+    simp only [List.mem_cons, List.not_mem_nil, or_false] at hp
+    rcases hp with rfl | rfl
+    · exact hmA
+    · exact hmM) hnd
+  simp only [kvsOf, nodesOf, List.map_cons, List.map_nil] at hkv hbytes hwmap
+  have hnmap := norm_map_kvsOf [(eA, aw), (eM, mf)] hnorm hnd
+  simp only [kvsOf, List.map_cons, List.map_nil] at hnmap
+  refine ⟨?_, ?_⟩
+  · have hval : (Node.kv [(entryKey eA, aw), (entryKey eM, mf)]).toVal
+        = .map [(Cbor.ofInt eA.id, aw.toVal), (Cbor.ofInt eM.id, mf.toVal)] := by
+      have := kvPairs_nodesOf [(eA, aw), (eM, mf)] [] (by
+        intro p hp
+        simp only [List.mem_cons, List.not_mem_nil, or_false] at hp
+        rcases hp with rfl | rfl
+        · exact hmA
+        · exact hmM) (by simpa using hnd)
+      simp only [kvsOf, nodesOf, List.map_cons, List.map_nil, List.nil_append] at this
+      simp only [Node.toVal, this]
+    have hwtag : (Cbor.tag t (.map [(Cbor.ofInt eA.id, aw.toVal), (Cbor.ofInt eM.id, mf.toVal)])).wf = true := by
+      rw [Cbor.wf, hwmap]; simp [ht]
+    exact reads_tagged hE hwtag hnmap hkv
+  · have hval : (Node.kv [(entryKey eA, aw), (entryKey eM, mf)]).toVal
+        = .map [(Cbor.ofInt eA.id, aw.toVal), (Cbor.ofInt eM.id, mf.toVal)] := by
+      have := kvPairs_nodesOf [(eA, aw), (eM, mf)] [] (by
+        intro p hp
+        simp only [List.mem_cons, List.not_mem_nil, or_false] at hp
+        rcases hp with rfl | rfl
+        · exact hmA
+        · exact hmM) (by simpa using hnd)
+      simp only [kvsOf, nodesOf, List.map_cons, List.map_nil, List.nil_append] at this
+      simp only [Node.toVal, this]
+    simp only [Node.toBytes, hval]
+
+/-- everything the assembled statement needs from the extracted schema, in one chain from `schema.envelope` -/
+theorem C03_envelope_chain :
+    ∃ (t : Nat) (nm : String) (cKv : Cls) (esEnv : List Entry) (emb : Option String) (eA eM : Entry)
+      (cAuth c cu ct ca cb cstar : Cls) (post : List Cls) (kstar k1 k2 : String) (es : List (String × Int))
+      (cMk : Cls) (esM : List Entry) (embM : Option String) (e1 e2 : Entry),
+      Generated.schema.ty Generated.schema.envelope = some (.tag t nm cKv) ∧
+      Generated.schema.ty cKv = some (.keyValue esEnv emb) ∧
+      esEnv.find? (fun e => e.name == "suit-authentication-wrapper") = some eA ∧
+      esEnv.find? (fun e => e.name == "suit-manifest") = some eM ∧
+      Generated.schema.ty eA.cls = some (.cbstr cAuth) ∧
+      Generated.schema.ty cAuth = some (.tupleNamed ([("SuitDigest", c)] ++ [(kstar, cstar)])) ∧
+      Generated.schema.ty c = some (.cbstr cu) ∧ Generated.schema.ty cu = some (.union (ct :: post)) ∧
+      Generated.schema.ty ct = some (.tupleNamed [(k1, ca), (k2, cb)]) ∧ Generated.schema.ty ca = some (.enum es) ∧
+      Generated.schema.ty cb = some .hex ∧
+      Generated.schema.ty eM.cls = some (.cbstr cMk) ∧ Generated.schema.ty cMk = some (.keyValue esM embM) ∧
+      esM.find? (fun e => e.name == "suit-manifest-version") = some e1 ∧
+      esM.find? (fun e => e.name == "suit-manifest-sequence-number") = some e2 ∧
+      (t = 107 ∧ eA.id = 2 ∧ eM.id = 3 ∧ eA.merge = false ∧ eM.merge = false ∧ e1.id = 1 ∧ e2.id = 2 ∧ e1.merge = false ∧
+        e2.merge = false) ∧
+      (esEnv.find? (fun e => e.id == eA.id) = some eA ∧ esEnv.find? (fun e => e.id == eM.id) = some eM ∧
+        esM.find? (fun e => e.id == e1.id) = some e1 ∧ esM.find? (fun e => e.id == e2.id) = some e2) ∧
+      (Generated.schema.ty e1.cls = some .uint ∧ Generated.schema.ty e2.cls = some .uint) ∧
+      (kstar.endsWith "*" = true ∧ k1.endsWith "*" = false ∧ k2.endsWith "*" = false) ∧
+      es.all (fun e => (es.find? (fun x => x.2 == e.2) == some e) && decide (-(2 ^ 64 : Int) ≤ e.2 ∧ e.2 < 2 ^ 64)) = true ∧
+      0 < es.length := by
+  refine ⟨_, _, _, _, _, _, _, _, _, _, _, _, _, _, _, _, _, _, _, _, _, _, _, _, rfl, rfl, rfl, rfl, rfl, rfl, rfl, rfl, rfl, rfl,
+    rfl, rfl, rfl, rfl, rfl, ?_, ?_, ?_, ?_, ?_, ?_⟩ <;> decide +kernel
+
+/-- **On the current tree: the smallest envelope, for all its values.**  Whatever the digest algorithm (of the extracted
+table), the digest value, the manifest version and the sequence number: `parse` builds from the envelope `create` wrote a node
+whose own encoding is that very envelope - nothing is dropped, truncated or re-interpreted. -/
+theorem C03_minimal_envelope_current :
+    ∃ (es : List (String × Int)), 0 < es.length ∧
+      ∀ e ∈ es, ∀ (b : Bytes) (v q : Nat), b.length < 2 ^ 64 → v < 2 ^ 64 → q < 2 ^ 64 →
+        (enc (.arr [Cbor.ofInt e.2, .bstr b])).length < 2 ^ 64 →
+        (enc (.arr [.bstr (enc (.arr [Cbor.ofInt e.2, .bstr b]))])).length < 2 ^ 64 →
+        (enc (.map [(Cbor.ofInt 1, .uint v), (Cbor.ofInt 2, .uint q)])).length < 2 ^ 64 →
+        ∃ n : Node,
+          Reads Generated.guards Generated.schema Generated.schema.envelope
+            (enc (.tag 107 (.map [(Cbor.ofInt 2, .bstr (enc (.arr [.bstr (enc (.arr [Cbor.ofInt e.2, .bstr b]))]))),
+                                  (Cbor.ofInt 3, .bstr (enc (.map [(Cbor.ofInt 1, .uint v), (Cbor.ofInt 2, .uint q)])))]))) n ∧
+          n.toBytes = enc (.tag 107 (.map [(Cbor.ofInt 2, .bstr (enc (.arr [.bstr (enc (.arr [Cbor.ofInt e.2, .bstr b]))]))),
+                                  (Cbor.ofInt 3, .bstr (enc (.map [(Cbor.ofInt 1, .uint v), (Cbor.ofInt 2, .uint q)])))])) := by
+  obtain ⟨t, nm, cKv, esEnv, emb, eA, eM, cAuth, c, cu, ct, ca, cb, cstar, post, kstar, k1, k2, es, cMk, esM, embM, e1, e2,
+    hE, hKv, _, _, hAw, hAuth, h1, h2, h3, h4, h5, hMc, hMk, _, _, hids, hfinds, huint, hstars, hall, hlen⟩ := C03_envelope_chain
+  obtain ⟨ht, hiA, hiM, hmA, hmM, hi1, hi2, hm1, hm2⟩ := hids
+  obtain ⟨hfA, hfM, hf1, hf2⟩ := hfinds
+  obtain ⟨hu1, hu2⟩ := huint
+  obtain ⟨hks, hk1, hk2⟩ := hstars
+  refine ⟨es, hlen, fun e he b v q hb hv hq hl1 hl2 hl3 => ?_⟩
+  have hent := List.all_eq_true.mp hall e he
+  simp only [Bool.and_eq_true, beq_iff_eq, decide_eq_true_eq] at hent
+  -- the two members
+  let awIn : Node := .tuple ["SuitDigest", kstar]
+    [.wrapped (.alt 0 (Generated.schema.name ct) (.tuple [k1, k2] [.enumv e.1 e.2, .leaf (.bstr b) .hex]))]
+  let mfIn : Node := .kv [(entryKey e1, .leaf (.uint v) .plain), (entryKey e2, .leaf (.uint q) .plain)]
+  have hawBytes : awIn.toBytes = enc (.arr [.bstr (enc (.arr [Cbor.ofInt e.2, .bstr b]))]) := by
+    simp [awIn, Node.toBytes, valList, Node.toVal]
+  have hmfBytes : mfIn.toBytes = enc (.map [(Cbor.ofInt 1, .uint v), (Cbor.ofInt 2, .uint q)]) := by
+    have := kv_toBytes [(e1, Node.leaf (.uint v) .plain), (e2, Node.leaf (.uint q) .plain)] (by
+      intro p hp
+      simp only [List.mem_cons, List.not_mem_nil, or_false] at hp
+      rcases hp with rfl | rfl
+      · exact hm1
+      · exact hm2) (by simp [hi1, hi2])
+    simpa [mfIn, kvsOf, nodesOf, Node.toVal, hi1, hi2] using this
+  have hA := C03_auth_wrapper_reads Generated.guards Generated.schema eA.cls cAuth c cu ct ca cb cstar post "SuitDigest" kstar k1 k2
+    es hAw hAuth (by decide +kernel) hks h1 h2 h3 h4 h5 hk1 hk2 e hent.1 hent.2 b hb hl1
+  have hM := reads_wrapped hMc (C03_manifest_head_reads Generated.guards Generated.schema cMk esM embM e1 e2 hMk hf1 hf2
+    (by rw [hi1, hi2]; decide) hu1 hu2 (by rw [hi1]; decide) (by rw [hi2]; decide) v q hv hq)
+  rw [hi1, hi2] at hM
+  have key := C03_minimal_envelope_reads Generated.guards Generated.schema Generated.schema.envelope cKv t nm esEnv emb eA eM
+    (.wrapped awIn) (.wrapped mfIn) hE hKv hfA hfM (by rw [hiA, hiM]; decide) hmA hmM (by rw [hiA]; decide) (by rw [hiM]; decide)
+    (by rw [ht]; decide)
+    (by simp only [Node.toVal, hawBytes, Cbor.wf, decide_eq_true_eq]; exact hl2)
+    (by simp only [Node.toVal, hmfBytes, Cbor.wf, decide_eq_true_eq]; exact hl3)
+    (by simp [Node.toVal, norm]) (by simp [Node.toVal, norm])
+    (by rw [ensure_wrapped, hawBytes]; exact hA)
+    (by rw [ensure_wrapped, hmfBytes]; exact hM)
+  simp only [Node.toVal, hawBytes, hmfBytes, hiA, hiM, ht] at key
+  exact ⟨_, key.1, key.2⟩
+
+/-! ### the other half for the scalar kinds: `from_obj(to_obj(n)) = n` for the leaves the decoder builds
+
+Together with the lemmas above: for these kinds `create(parse(bytes))` rebuilds the very node, hence the very bytes. -/
+
+theorem C03_recreate_uint (cx : Ctx) (n : Nat) :
+    leafFromObj cx .uint (toObj (.leaf (.uint n) .plain)) = some (.ok (.leaf (.uint n) .plain)) := by
+  simp [toObj, intObj, leafFromObj, scalarOk, scalarVal, Cbor.ofInt]
+
+theorem C03_recreate_int (cx : Ctx) (z : Int) :
+    leafFromObj cx .int (toObj (.leaf (Cbor.ofInt z) .plain)) = some (.ok (.leaf (Cbor.ofInt z) .plain)) := by
+  have h : intObj (Cbor.ofInt z) = .int z := by
+    unfold Cbor.ofInt
+    split
+    · simp only [intObj, Obj.int.injEq]; omega
+    · simp only [intObj, Obj.int.injEq]; omega
+  simp [toObj, h, leafFromObj, scalarOk, scalarVal]
+
+theorem C03_recreate_bool (cx : Ctx) (v : Bool) :
+    leafFromObj cx .bool (toObj (.leaf (Cbor.bool v) .plain)) = some (.ok (.leaf (Cbor.bool v) .plain)) := by
+  cases v <;> simp [toObj, intObj, Cbor.bool, leafFromObj, scalarOk, scalarVal]
+
+theorem C03_recreate_null (cx : Ctx) :
+    leafFromObj cx .null (toObj (.leaf Cbor.null .plain)) = some (.ok (.leaf Cbor.null .plain)) := by
+  simp [toObj, intObj, Cbor.null, leafFromObj, scalarOk, scalarVal]
+
+/-- byte strings rendered as hex text (digests, payload content, signatures, key ids …) -/
+theorem C03_recreate_hex (cx : Ctx) (b : Bytes) :
+    leafFromObj cx .hex (toObj (.leaf (.bstr b) .hex)) = some (.ok (.leaf (.bstr b) .hex)) := by
+  have h : ofHex (toHex b) = some b := by
+    simp [ofHex, toHex, SuitVerif.Props.C05.C05_hex_roundtrip]
+  simp [toObj, hexObj, leafFromObj, hexOfObj, h, bind, Except.bind, pure, Except.pure]
+
+/-- enumerations, in a table without repeated names -/
+theorem C03_recreate_enum (cx : Ctx) (es : List (String × Int)) (e : String × Int)
+    (hf : es.find? (fun x => x.1 == e.1) = some e) :
+    leafFromObj cx (.enum es) (toObj (.enumv e.1 e.2)) = some (.ok (.enumv e.1 e.2)) := by
+  simp [toObj, leafFromObj, hf]
+
+/-- the premise of `C03_recreate_enum` for every enumeration of the extracted schema, every entry -/
+def enumNamesOk (s : Schema) : Bool :=
+  s.classes.all (fun c => match c.2 with
+    | .enum es => es.all (fun e => es.find? (fun x => x.1 == e.1) == some e)
+    | _ => true)
+
+theorem C03_enum_names : enumNamesOk Generated.schema = true := by decide +kernel
 
 end SuitVerif.Props.C03
